@@ -7,6 +7,7 @@ From Coq Require Import List Arith NArith Bool String.
 From Verif Require Import Lib.Sched Kv.KeyOrd Kv.AList Kv.Spec Kv.Mem Kv.Sql Kv.Skel Kv.Refine
   Kv.Facts Kv.SeqFacts Kv.KvGen Kv.KvCorr Kv.Atomic Kv.AtomicSql Kv.AtomicCor Kv.AtomicCorr
   Kv.AtomicPg Kv.AtomicGen Gen.KvSql Gen.KvMemSkel.
+From Verif Require Import Kv.Retry Gen.KvRetry.
 Import ListNotations.
 
 Notation mreachable := (Sched.reachable table loc result).
@@ -151,6 +152,32 @@ Theorem C06_sql_add_once : forall bprog db0 cfg k,
   end.
 Proof. exact gen_sql_add_once. Qed.
 Print Assumptions C06_sql_add_once.
+
+(** ** What the function of a Mutate is shown
+
+    The models hand the function the stored bytes; the code decodes them with
+    json.Unmarshal into the caller's variable, and Unmarshal merges into maps
+    and into struct fields the JSON omits.  With the shape extracted from the
+    source (each backend invokes the function at most once per call, or the
+    decode target is fresh per invocation) the function is shown, in every
+    attempt, the value that attempt read and nothing else, and what is written
+    is the function's result on the value read last. *)
+Theorem C06_mutate_sees_stored_value_only : forall g reads,
+  attempts_allowed gen_mutate_shape reads ->
+  fst (attempts gen_mutate_shape g [] reads) = map canon reads /\
+  match rev reads with
+  | [] => snd (attempts gen_mutate_shape g [] reads) = []
+  | r :: _ => snd (attempts gen_mutate_shape g [] reads) = g (canon r)
+  end.
+Proof.
+  exact (fun g reads H =>
+           mutate_sees_stored_value_only gen_mutate_shape g [] reads gen_mutate_target_ok H eq_refl).
+Qed.
+Print Assumptions C06_mutate_sees_stored_value_only.
+
+Theorem C06_mutate_shape : mshape_ok gen_mutate_shape = true.
+Proof. exact gen_mutate_target_ok. Qed.
+Print Assumptions C06_mutate_shape.
 
 (** concurrent Removes of one key: exactly the first to take effect succeeds *)
 Theorem C06_mem_remove_once : forall bprog m0 cfg k e,
@@ -478,3 +505,13 @@ Proof.
   specialize (H pg_prog pg_db0 cfg Hr). rewrite H in Hseq. cbn [fst] in Hseq.
   rewrite Hdb in Hseq. discriminate.
 Qed.
+
+(** a backend that runs the transaction again after SQLITE_BUSY, with the
+    decode target of today (the caller's variable): stored {a,b}, the function
+    adds c, the first attempt is refused, another Mutate removes b, the second
+    attempt reads {a} - the function is shown {a,b,c} and that is written *)
+Example C06_reused_target_refuted :
+  let g := tins 99%N in
+  attempts retrying_shape g [] [[97; 98]; [97]]%N = ([[97; 98]; [97; 98; 99]], [97; 98; 99])%N /\
+  attempts (mkMShape false true) g [] [[97; 98]; [97]]%N = ([[97; 98]; [97]], [97; 99])%N.
+Proof. exact reused_target_refuted. Qed.
